@@ -53,17 +53,39 @@ def _worker_init(hang_s):
     signal.signal(signal.SIGINT, signal.SIG_IGN)
 
 
+class RunTimeout(BaseException):
+    """Soft per-run wall-clock limit (a run that merely is slow is set aside and counted, never a result)."""
+
+
+def _alarm(signum, frame):
+    raise RunTimeout()
+
+
+SOFT_TIMEOUT_S = 45
+
+
 def _run_chunk(fn, idxs, hang_s):
     out = []
+    try:
+        signal.signal(signal.SIGALRM, _alarm)
+        use_alarm = True
+    except ValueError:       # not in the main thread
+        use_alarm = False
     for i in idxs:
         faulthandler.dump_traceback_later(hang_s, exit=True)
+        if use_alarm:
+            signal.setitimer(signal.ITIMER_REAL, SOFT_TIMEOUT_S)
         try:
             out.append((i, fn(i)))
+        except RunTimeout:
+            out.append((i, {'slow_run': True, 'where': ''.join(traceback.format_stack(limit=3))[-300:]}))
         except HarnessError:
             out.append((i, {'harness_error': traceback.format_exc()}))
         except Exception:
             out.append((i, {'harness_error': traceback.format_exc()}))
         finally:
+            if use_alarm:
+                signal.setitimer(signal.ITIMER_REAL, 0)
             faulthandler.cancel_dump_traceback_later()
     return out
 
@@ -90,7 +112,7 @@ def run_pool(fn, indices, *, workers=None, chunk=20, wall_cap=None, hang_s=120, 
                 if 'harness_error' in r:
                     errors.append((i, r['harness_error']))
                 results[i] = r
-                if on_result:
+                if on_result and 'slow_run' not in r:
                     on_result(i, r)
         return results, completed_all, errors
     with ProcessPoolExecutor(max_workers=workers, mp_context=ctx, initializer=_worker_init, initargs=(hang_s,)) as ex:
@@ -127,7 +149,7 @@ def run_pool(fn, indices, *, workers=None, chunk=20, wall_cap=None, hang_s=120, 
                         if 'harness_error' in r:
                             errors.append((i, r['harness_error']))
                         results[i] = r
-                        if on_result:
+                        if on_result and 'slow_run' not in r:
                             on_result(i, r)
                 except Exception as e:  # worker died (BrokenProcessPool etc.)
                     errors.append((-1, f'worker failed: {e!r}'))
